@@ -48,6 +48,20 @@ def cases(ctx):
                           for s in spks + [leaf] + [o.script_pubkey.script for o in tx.outputs] for t in s)
                 yield Case(f'dig_v1 {line} {i} {sp} {ext} {toks_str(leaf)} {ht}', 'ms' if dom else 'm',
                            nontrivial=n >= 2 and (ht != 0 or i > 0 or big), tag='v1', domain=dom)
+    for _ in range(ctx.n(50, 2500)):
+        tx = G.gen_tx(rng, names, kind='segwit', max_in=4, max_out=4, min_out=1, big=False)
+        muts = [m for m in G.random_mutations(rng, tx, names) if m[0] != 'addin']     # keep the number of inputs (spent outputs list)
+        if not muts: muts = [('lock', '01020304')]
+        line0 = tx_to_line(tx)
+        G.apply_mutations(tx, muts)
+        line1 = tx_to_line(tx)
+        n = len(tx.inputs); i = rng.randrange(n); ht = rng.choice(TYPES)
+        if ht & 3 == 3 and i >= len(tx.outputs): ht = 0
+        sp = ' '.join([str(n)] + [toks_str(['OP_1', G.rbytes(rng, 32).hex()])] * n) + ' ' + ' '.join([str(n)] + [str(1000 + k) for k in range(n)])
+        rest = f'{i} {sp} 0 0 {ht}'
+        ctx.count('after-mutation')
+        yield Case(f'dig_v1_after {line0} {G.muts_line(muts)} {rest}', 'ms', nontrivial=True, tag='after-mutation',
+                   model=lambda ans, l=line1, r=rest: (f'm:dig_v1 {l} {r}', ans), spec=lambda ans, l=line1, r=rest: (f's:dig_v1 {l} {r}', ans))
     tx = G.gen_tx(rng, names, kind='segwit', max_in=2, max_out=2, min_out=1, big=False)
     n = len(tx.inputs)
     sp = ' '.join([str(n)] + [toks_str(['OP_1'])] * n) + ' ' + ' '.join([str(n)] + ['5'] * n)
@@ -59,7 +73,10 @@ def cases(ctx):
 def impl(op, a, ctx):
     from bitcoinutils.script import Script
     F = Fields(a)
-    tx = line_to_tx(F); i = F.nat()
+    tx = line_to_tx(F)
+    if op == 'dig_v1_after':
+        muts = G.parse_muts(F); G.exercise(tx); G.apply_mutations(tx, muts)
+    i = F.nat()
     spks = [Script(s) for s in F.list(F.toks)]; amts = F.list(F.int); ext = F.nat(); leaf = F.toks(); ht = F.nat(); F.done()
     return 'ok ' + hx(tx.get_transaction_taproot_digest(i, spks, amts, ext, Script(leaf), sighash=ht))
 
